@@ -12,7 +12,7 @@ def main():
     for f in glob.glob(os.path.join(HERE, 'evidence', 'C*.json')):
         d = json.load(open(f))
         files[d['property_id']] = set((fn.get('file') or '').replace('/repo/', '') for fn in d['coverage'].get('functions_under_contract', []))
-    ids = sys.argv[1:] or sorted(x for x in os.listdir(D) if os.path.isdir(os.path.join(D, x)))
+    ids = [] if sys.argv[1:] == ['--readme-only'] else sys.argv[1:] or sorted(x for x in os.listdir(D) if os.path.isdir(os.path.join(D, x)))
     rf = os.path.join(D, 'cross.json')
     res = json.load(open(rf)) if os.path.exists(rf) else {}
     for sid in ids:
@@ -30,7 +30,13 @@ def main():
                                              other=[l[:200] for l in out.splitlines() if l.startswith(('UNDECIDED', 'CHECKER-ERROR', 'VIOLATION', '  obligation'))][:6],
                                              summary=summ[-1] if summ else out[-300:])
             print(sid, prop, p.returncode, res["%s@%s" % (sid, prop)]['violations'], flush=True)
-            json.dump(res, open(rf, 'w'), indent=1, sort_keys=True)
+            import fcntl
+            with open(rf + '.lock', 'w') as lk:          # several instances may run side by side: merge under a lock
+                fcntl.flock(lk, fcntl.LOCK_EX)
+                cur = json.load(open(rf)) if os.path.exists(rf) else {}
+                cur["%s@%s" % (sid, prop)] = res["%s@%s" % (sid, prop)]
+                res = cur
+                json.dump(res, open(rf, 'w'), indent=1, sort_keys=True)
     bad = dict((k, v) for k, v in res.items() if v['exit'] != 0 or v['violations'])
     readme = os.path.join(D, 'README.md')
     txt = open(readme).read() if os.path.exists(readme) else ''
